@@ -62,6 +62,7 @@ type Contract struct {
 	Callsites []Clause // callsite <target> [label] expr: must hold whenever the function body calls <target> (Label = label, File/Line; target kept in Target)
 	BodyReq   []Clause // bodyrequires: assumed when the body of an `assumed` contract is checked for its call-site conditions (callers need not establish it)
 	Macros    []Clause // macro name = text: textual abbreviation, expanded in every clause of this contract (evaluated where it is used)
+	Counts    []string // integer ghosts incremented by every call of this function (call counters)
 	Allocates []string // for assumed contracts: component names that may receive fresh objects
 	Bounded   string   // bounded-standin description
 	Havoc     bool     // assumed: havoc all state (unknown side effects)
@@ -69,7 +70,7 @@ type Contract struct {
 	Reveal    []string // opaque spec functions whose definition this function's proof may use
 }
 
-var kwRe = regexp.MustCompile(`^(axiom|func|props|requires|ensures|lemma|reveal|summary|modifies|loop|decreases|assumed|pure|nosafety|inline|maypanic|note|let|macro|callsite|bodyrequires|allocates|bounded-standin|havoc)\b`)
+var kwRe = regexp.MustCompile(`^(axiom|func|props|requires|ensures|lemma|reveal|summary|modifies|loop|decreases|assumed|pure|nosafety|inline|maypanic|note|let|macro|callsite|bodyrequires|counts|allocates|bounded-standin|havoc)\b`)
 var funcRe = regexp.MustCompile(`^func\s+(\([^)]*\)\.)?([A-Za-z0-9_./$#\-]+)\s*\(([^)]*)\)\s*(\(([^)]*)\))?\s*$`)
 
 // parseContractFile reads contracts from a file. pkgPath qualifies
@@ -184,6 +185,10 @@ func parseContractFile(path, pkgPath string) ([]*Contract, []Clause, error) {
 			if rest != "nothing" && rest != "" {
 				cur.Modifies = append(cur.Modifies, splitTop(rest, ',')...)
 			}
+		case "counts":
+			// counts <ghost>: every call of this function increments the integer ghost (a call counter:
+			// a pure specification device, nothing is assumed about the code)
+			cur.Counts = append(cur.Counts, strings.Fields(strings.ReplaceAll(rest, ",", " "))...)
 		case "allocates":
 			cur.Allocates = append(cur.Allocates, strings.Fields(strings.ReplaceAll(rest, ",", " "))...)
 		case "decreases":
@@ -385,6 +390,19 @@ func rewriteImplies(s string) string {
 	if !strings.Contains(s, "==>") {
 		return s
 	}
+	if strings.Contains(s, "\"") {
+		// string literals may hold unbalanced brackets: mask them while the text is restructured
+		var lits []string
+		masked := strLitRe.ReplaceAllStringFunc(s, func(m string) string {
+			lits = append(lits, m)
+			return fmt.Sprintf("__strlit%d__", len(lits)-1)
+		})
+		out := rewriteImplies(masked)
+		for i, l := range lits {
+			out = strings.Replace(out, fmt.Sprintf("__strlit%d__", i), l, -1)
+		}
+		return out
+	}
 	// split at top-level commas first (argument lists)
 	parts := splitTopKeep(s, ',')
 	if len(parts) > 1 {
@@ -456,5 +474,33 @@ func splitTopKeep(s string, sep byte) []string {
 		}
 	}
 	out = append(out, s[start:])
+	return out
+}
+
+var resultRe = regexp.MustCompile(`\bresult\("([^"]+)"`)
+var strLitRe = regexp.MustCompile(`"[^"]*"`)
+var callsRe = regexp.MustCompile(`\bcalls\("([^"]+)"\)`)
+
+// allClauseTexts: the text of every clause of the contract (macros included).
+func (c *Contract) allClauseTexts() []string {
+	var out []string
+	add := func(cs []Clause) {
+		for _, cl := range cs {
+			out = append(out, cl.Text)
+		}
+	}
+	add(c.Requires)
+	add(c.Ensures)
+	for _, cs := range c.Callsites {
+		out = append(out, cs.Text)
+	}
+	for _, l := range c.Loops {
+		if l != nil {
+			add(l.Invariants)
+		}
+	}
+	for _, m := range c.Macros {
+		out = append(out, m.Text)
+	}
 	return out
 }
